@@ -77,10 +77,12 @@ def bind (v : Variant) (job cls inst : Attrs) : Attrs × Bound :=
         envars := dmerge (dmerge cls.envars inst.envars) job.envars }
     ({ executable := b.executable, nprocs := some b.nprocs, memory := some b.memory, envars := b.envars }, b)
 
-/-- a history of driver creations and uses (`use i` = `driver_i.job.prepare(...)`) -/
+/-- a history of driver creations, attribute changes, uses (`use i` = `driver_i.job.prepare(...)`) and disposals -/
 inductive Ev
   | create (i : Nat) (a : Attrs)
   | use (i : Nat)
+  | mutate (i : Nat) (a : Attrs)     -- the attributes of a live driver are assigned new values
+  | discard (i : Nat)                -- the driver object is dropped (garbage collected)
 deriving Repr, DecidableEq
 
 structure World where
@@ -95,8 +97,16 @@ def lookupInst (insts : List (Nat × Attrs)) (i : Nat) : Option Attrs :=
 def setInst (insts : List (Nat × Attrs)) (i : Nat) (a : Attrs) : List (Nat × Attrs) :=
   (i, a) :: insts.filter (fun e => !(e.1 == i))
 
+def dropInst (insts : List (Nat × Attrs)) (i : Nat) : List (Nat × Attrs) :=
+  insts.filter (fun e => !(e.1 == i))
+
 def stepEv (v : Variant) (cls : Attrs) (w : World) : Ev → World × Option Bound
   | .create i a => ({ w with insts := setInst w.insts i a }, none)
+  | .mutate i a =>
+    match lookupInst w.insts i with
+    | none => (w, none)
+    | some _ => ({ w with insts := setInst w.insts i a }, none)
+  | .discard i => ({ w with insts := dropInst w.insts i }, none)
   | .use i =>
     match lookupInst w.insts i with
     | none => (w, none)
@@ -119,12 +129,13 @@ inductive Effect
   | dumpEnv (var dst : String)                    -- `printf %s "$var" > dst`
 deriving Repr, DecidableEq
 
-/-- the scripted behaviour of one command -/
+/-- the scripted behaviour of one command; `code` is `subprocess`'s return code: the exit status, or `-n` when the
+process was killed by signal `n` -/
 structure Outcome where
   effects : List Effect
   out : Bytes
   err : Bytes
-  code : Nat
+  code : Int
 deriving Repr, DecidableEq
 
 structure JobInput where
@@ -181,7 +192,7 @@ deriving Repr
 
 def namesOf (ran : List (Option String × Outcome)) : List String := ran.filterMap (·.1)
 
-def failedCode (ran : List (Option String × Outcome)) : Option Nat :=
+def failedCode (ran : List (Option String × Outcome)) : Option Int :=
   match ran.getLast? with
   | some (_, o) => if o.code ≠ 0 then some o.code else none
   | none => none
@@ -216,7 +227,7 @@ def collectStep (fs : FS) (d : List (String × Bytes)) (f : String) : List (Stri
 def collect (fs : FS) (req : List String) : List (String × Bytes) :=
   req.foldl (collectStep fs) []
 
-def exitcodeOf (v : Variant) (failed : Option Nat) (complete : Bool) : Int :=
+def exitcodeOf (v : Variant) (failed : Option Int) (complete : Bool) : Int :=
   match v with
   | .repaired => match failed with
     | some c => c
